@@ -5,3 +5,4 @@ import Model.Ref
 import Model.Wire
 import Model.Topic
 import Model.TopicSpec
+import Model.Session
